@@ -1,0 +1,53 @@
+//go:build verif
+
+package tbtc
+
+import (
+	"crypto/ecdsa"
+	"sort"
+)
+
+// Verification hook (build tag verif): re-exports existing identifiers only.
+
+var VerifC25ErrWalletBusy = errWalletBusy
+
+// VerifC25Action adapts exported fields to the unexported walletAction
+// interface so that a harness outside the package can script actions.
+type VerifC25Action struct {
+	Execute         func() error
+	WalletPublicKey *ecdsa.PublicKey
+	Type            WalletActionType
+}
+
+func (a *VerifC25Action) execute() error { return a.Execute() }
+
+func (a *VerifC25Action) wallet() wallet {
+	return wallet{publicKey: a.WalletPublicKey}
+}
+
+func (a *VerifC25Action) actionType() WalletActionType { return a.Type }
+
+type VerifC25Dispatcher struct {
+	wd *walletDispatcher
+}
+
+func VerifC25NewDispatcher() *VerifC25Dispatcher {
+	return &VerifC25Dispatcher{wd: newWalletDispatcher()}
+}
+
+func (d *VerifC25Dispatcher) Dispatch(action *VerifC25Action) error {
+	return d.wd.dispatch(action)
+}
+
+// BusyKeys is a read-only snapshot of the keys of the actions map, taken
+// under the dispatcher's own mutex.
+func (d *VerifC25Dispatcher) BusyKeys() []string {
+	d.wd.actionsMutex.Lock()
+	defer d.wd.actionsMutex.Unlock()
+	keys := make([]string, 0, len(d.wd.actions))
+	for k := range d.wd.actions {
+		keys = append(keys, k)
+	}
+	sort.Strings(keys)
+	return keys
+}
